@@ -842,6 +842,8 @@ def _initialize_aggregation(
     if _is_arg_reduction(agg):
         # this allows us to unravel_index easily. we have to do that nearly every time.
         agg.fill_value["numpy"] = (0,)
+        # ... and positions are integers until the very end (the final dtype is floating for a NaN fill_value)
+        agg.dtype["numpy"] = (np.dtype(np.intp),)
     else:
         agg.fill_value["numpy"] = (agg.fill_value[func],)
 
